@@ -42,7 +42,13 @@ Cases ==
 CancelThenLoss ==
   { [runner |-> r, prog |-> "sleep", at |-> a, nfiles |-> 3, destroy |-> TRUE, frozen |-> TRUE, rep |-> 300 + k] :
       r \in {"container", "container-sa"}, a \in {30, 80}, k \in 1..Reps }
-ASSUME ndJsonSerialize("cases.ndjson", SetToSeq(Cases \cup CancelThenLoss))
+\* the cancellation and the program's own end are BOTH pending when the host looks (the API goroutine is held in
+\* front of waitForDone's select for 120 ms): whichever the select takes, the kill handshake must be completed --
+\* the next run on the same environment shows it
+BothPending ==
+  { [runner |-> r, prog |-> "quick", at |-> a, nfiles |-> 3, destroy |-> FALSE, frozen |-> FALSE, rep |-> 600 + k] :
+      r \in {"container", "container-sa"}, a \in {5, 40}, k \in 1..(3 * Reps) }
+ASSUME ndJsonSerialize("cases.ndjson", SetToSeq(Cases \cup CancelThenLoss \cup BothPending))
 VARIABLE x
 Init == x = 0
 Next == UNCHANGED x
